@@ -725,6 +725,7 @@ func (e *Explorer) RunPrefix(j *Job, prefix []string, concrete map[string]uint64
 		e.z.send("(push 1)")
 	}
 	CallStack = nil
+	firstHostStack = ""
 	resetSched()
 	resetModels()
 	fuel = j.Fuel
@@ -770,9 +771,12 @@ func (e *Explorer) classify(r any) {
 		e.record(KRuntime, r.msg, true, "true")
 	default:
 		msg := fmt.Sprint(r)
-		st := string(debug.Stack())
-		if len(st) > 2500 {
-			st = st[:2500]
+		st := firstHostStack
+		if st == "" {
+			st = string(debug.Stack())
+			if len(st) > 2500 {
+				st = st[:2500]
+			}
 		}
 		if e.Debug {
 			fmt.Fprintln(os.Stderr, "ENGINE-ERROR:", msg)
